@@ -406,8 +406,8 @@ def add_class_ext(u, fields):
     return cls
 
 
-def build(fields):
-    u = Universe()
+def build(fields, postponed=False):
+    u = Universe(postponed=postponed)
     for cls, (members, values) in enums_of(fields).items():
         u.enum(cls, members, values)
     if any("choice" in f for f in fields):
@@ -442,10 +442,10 @@ def expected_type(v):
     return t
 
 
-def run_parse(c, argv):
+def run_parse(c, argv, postponed=False):
     import simple_parsing
 
-    u, cls = build(c["fields"])
+    u, cls = build(c["fields"], postponed)
     sp.reset_globals()
     if c["api"] == "parse":
         r = sp.run_outcome(lambda: simple_parsing.parse(cls, args=argv, dest="config"))
@@ -498,7 +498,13 @@ def conv_tag(fn):
 def impl(case):
     c = case["case"]
     if case["op"] == "fields.parse":
-        return run_parse(c, c["argv"])
+        r = run_parse(c, c["argv"])
+        if not any("choice" in f or f["ty"]["k"] == "any" for f in c["fields"]):
+            # the same dataclass written as in a module with `from __future__ import annotations` (string annotations,
+            # builtin generics, `X | None`): the field types are the same types, so the same argv must give the same result
+            t = run_parse(c, c["argv"], postponed=True)
+            r["postponed"] = "same" if t == {k: v for k, v in r.items() if k != "postponed"} else t
+        return r
     if case["op"] == "engine.run":
         # the REAL parser of the one-field dataclass c["src"], observed as the engine's namespace
         f = c["src"]["fields"][0]
@@ -601,6 +607,10 @@ def oracle(case, obs):
         return fails
     if not c["asg"] and any(f["default"]["kind"] == "missing" and f["ty"]["k"] != "opt" for f in c["fields"]):
         return fails  # no expressible assignment was found for a required field: nothing to check
+    if obs.get("postponed", "same") != "same":
+        fails.append({"clause": "postponed-annotations",
+                      "detail": f"argv {c['argv']}: the dataclass declared with string annotations gives {obs['postponed']}, "
+                                f"declared with evaluated annotations {({k: v for k, v in obs.items() if k != 'postponed'})}"})
     if obs["o"] != "ok":
         fails.append({"clause": "roundtrip", "detail": f"canonical argv {c['argv']} was not accepted: {obs}"})
         return fails
